@@ -41,6 +41,70 @@ def all_int_dtype_ok(codes, scale):
     return all(finite(c) and c % scale == 0 for c in codes)
 
 
+# ---------------------------------------------------------------- input-variation matrix (same numbers, other buffers)
+VDTYPES = ["int8", "uint8", "int16", "uint16", "int32", "int64", "uint64", "float32", "float64"]
+ZDTYPES = ["int32", "int64", "uint8", "float32", "float64"]
+LAYOUTS = ["C", "F", "T", "S", "R"]        # C, Fortran, transposed view, strided view, reversed view
+BITS = {"int8": 8, "uint8": 8, "int16": 16, "uint16": 16, "int32": 32, "int64": 64, "uint64": 64}
+DIMS = [["y", "x"], ["y", "x"], ["lat", "lon"], ["row", "col"], ["x", "y"]]
+CATDIMS = ["cat", "band", "layer"]
+ODD_NODATA = 777777                        # code of a nodata value that equals no cell
+
+
+def fits(codes, scale, dtype):
+    """can the raster (codes / scale) be stored in dtype without changing a number?"""
+    if dtype.startswith("float"):
+        return True
+    if not all(finite(c) and c % scale == 0 for c in codes):
+        return False
+    vals = [c // scale for c in codes]
+    if dtype.startswith("uint"):
+        return min(vals) >= 0 and max(vals) < 2 ** BITS[dtype]
+    return -2 ** (BITS[dtype] - 1) <= min(vals) and max(vals) < 2 ** (BITS[dtype] - 1)
+
+
+def pick_dtype(rng, codes, scale, options):
+    ok = [d for d in options if fits(codes, scale, d)]
+    ints = [d for d in ok if not d.startswith("float")]
+    if ints and rng.random() < 0.6:
+        return rng.choice(ints)
+    return rng.choice([d for d in ok if d.startswith("float")] + ["float64"])
+
+
+def odd_nodata(rng, vdt, codes, scale):
+    """a nodata number the integer dtype cannot represent, chosen so that a cast to the dtype would turn it into a
+    value that IS in the raster (fractional -> truncates, negative for unsigned / beyond the range -> wraps).
+    As a real number it equals no cell, so nothing may be dropped."""
+    if vdt not in BITS:
+        return None
+    present = sorted({c // scale for c in codes if finite(c)})
+    if not present:
+        return None
+    x = rng.choice(present)
+    kinds = ["frac", "beyond"] + (["neg"] if vdt.startswith("uint") else [])
+    k = rng.choice(kinds)
+    if k == "frac":
+        return x + 0.5 if x >= 0 else x - 0.5
+    if k == "neg":
+        return x - 2 ** BITS[vdt]
+    return x + 2 ** BITS[vdt]
+
+
+def vary(rng, job, value_codes, p_layout=0.6, p_odd=0.2):
+    """draw the buffer layouts, dimension names and (for integer rasters) an unrepresentable nodata for a job."""
+    job["zlay"] = rng.choice(LAYOUTS) if rng.random() < p_layout else "C"
+    job["vlay"] = rng.choice(LAYOUTS) if rng.random() < p_layout else "C"
+    job["dims"] = rng.choice(DIMS)
+    if job.get("dim") == 3:
+        job["catdim"] = rng.choice(CATDIMS)
+    if job.get("backend", "numpy") in ("numpy", "dask") and rng.random() < p_odd:
+        raw = odd_nodata(rng, job["vdt"], value_codes, job["vs"])
+        if raw is not None:
+            job["nd"] = ODD_NODATA
+            job["nd_raw"] = raw
+    return job
+
+
 def chunks(seq, size):
     for i in range(0, len(seq), size):
         yield seq[i:i + size]
